@@ -10,9 +10,11 @@
    Proof automation: Coq's [Ncring] library -- the section hypothesis [Hnc : ncring_theory S] is
    turned into a [Ncring.Ring] instance ([ncring_inst]), after which [non_commutative_ring]
    decides equalities by normalising both sides to sums of ordered monomials.  Usage in a
-   Section:   Context {S : Scalar} (Hnc : ncring_theory S).  Local Existing Instance ...  (see
-   [NcSetup] below: `Local Instance nci : Ring (T:=S) := ncring_inst Hnc.`). *)
-From Coq Require Export Ncring Ncring_tac.
+   Section (the Ncring notations "0", "1", "+" ... are deliberately NOT exported to client files):
+       Hypothesis Hnc : ncring_theory S.
+       Local Instance nci : NcRingInst S := ncring_inst Hnc.
+       ... ncr. *)
+From Coq Require Import Ncring Ncring_tac.
 From Amgcl Require Import Scalar Vec.
 Local Open Scope S_scope.
 
@@ -46,10 +48,13 @@ Proof.
     try assumption; try typeclasses eauto.
 Qed.
 
+Notation NcRingInst S := (@Ncring.Ring S s0 s1 sadd smul ssub sopp (@eq S) nc_ops).
+Ltac ncr := non_commutative_ring.
+
 Section NcBasics.
 Context {S : Scalar}.
 Hypothesis Hnc : ncring_theory S.
-Local Instance nci : Ring (T:=S) := ncring_inst Hnc.
+Local Instance nci : NcRingInst S := ncring_inst Hnc.
 
 Lemma nc_add_0_r (x : S) : x + s0 = x.
 Proof. non_commutative_ring. Qed.
